@@ -15,6 +15,7 @@ import KcacheModel.Props.C11
 import KcacheModel.Proofs.Life2
 import KcacheModel.Api
 import KcacheModel.Proofs.Api
+import KcacheModel.Proofs.SysLife
 namespace KC.C12
 open KC KC.C11
 
@@ -141,6 +142,49 @@ theorem attach_anc (s : Life) (p : Nat) (hw : s.WF) (hp : p < s.len) (hlen : 0 <
 /-! non-vacuity: the 4-node example of C11 shuts down completely in 8 internal steps after closing the root -/
 example : ∃ s, C11.ex.run [.close 0, .stop 0, .stop 1, .stop 2, .stop 3, .finish 2, .finish 1, .finish 3, .finish 0] = some s ∧
     s.done 0 = true ∧ s.done 1 = true ∧ s.done 2 = true ∧ s.done 3 = true := ⟨_, rfl, by decide, by decide, by decide, by decide⟩
+
+/-! ### the executable tree model agrees with the cascade (bridge to Sys.lean, the model the tree engine runs) -/
+
+/-- **the executable tree model's Close is the terminal state of the cascade, for every schedule**: after
+`Close(id)` on a fresh tree, whatever order the library's own steps (ShutdownInitiated / ShutdownCompleted of the
+individual components) are taken in, once none is left the components that are done are exactly the ones the
+executable model (the one the tree engine compares the implementation with) marks closed: `id` and everything
+fed by it -/
+theorem sys_close_is_cascade_terminal (s : Sys) (hw : (lifeOf s).WF) (id : Nat) (hid : id < s.nodes.length)
+    (ls : List LLabel) (hint : ∀ l ∈ ls, internal l = true) (t : Life)
+    (hr : ((lifeOf s).step (.close id)).run ls = some t) (ht : t.terminal) (i : Nat) (hi : i < s.nodes.length) :
+    t.done i = descendantOf s.fuel s id i := by
+  have hfresh : Fresh (lifeOf s) := fun _ => ⟨rfl, rfl, rfl⟩
+  have hen : (lifeOf s).enabled (.close id) = true := by simp [Life.enabled, lifeOf, hid]
+  have hr0 : (lifeOf s).run (.close id :: ls) = some t := by simp [Life.run, hen, hr]
+  obtain ⟨hlen, hpar, hanc⟩ := run_shape _ ls t hr
+  have hanc' : ∀ a i, Anc t a i ↔ Anc (lifeOf s) a i := fun a i => by rw [hanc a i, anc_step]
+  have hsr : t.stopReq = fun j => if j = id then true else false := by
+    rw [run_internal_stopReq _ ls hint t hr]; rfl
+  have hlen' : t.len = s.nodes.length := by rw [hlen, step_len]; rfl
+  have hwt : t.WF := by
+    intro c h1 h2
+    rw [hpar, step_parent]
+    exact hw c h1 (by rw [hlen'] at h2; exact h2)
+  cases hd : descendantOf s.fuel s id i with
+  | true =>
+    have ha : Anc t id i := (hanc' id i).mpr (descendantOf_anc s id _ i hd)
+    exact cascade_complete t hwt ht id i ha (by rw [hlen']; exact hi) (by rw [hsr]; simp)
+  | false =>
+    cases hdn : t.done i with
+    | false => rfl
+    | true =>
+      exfalso
+      obtain ⟨a, ha, hra⟩ := stops_only_below_close (lifeOf s) hfresh (.close id :: ls) t hr0 i (Or.inr hdn)
+      have : a = id := by
+        rw [hsr] at hra
+        by_cases h : a = id
+        · exact h
+        · simp [h] at hra
+      subst this
+      have := anc_descendantOf s hw a i ((hanc' a i).mp ha) hi s.fuel (by unfold Sys.fuel; omega)
+      rw [this] at hd; cases hd
+
 
 /-! ### every API call returns a result or ErrNotRunning instead of blocking (model: Api.lean) -/
 
